@@ -239,8 +239,8 @@ Qed.
 (* =====================================================================================
    BibTeXML *)
 Definition xml_ok_entry (e : wentry) : Prop :=
-  Forall (fun kv => is_role_lower (fst kv) = false) (we_fields e) /\
-  Forall (fun rp => is_role_lower (fst rp) = true /\ Forall parts_ok (snd rp)) (we_persons e).
+  Forall (fun kv => is_role_lower (lower (fst kv)) = false) (we_fields e) /\
+  Forall (fun rp => is_role_lower (lower (fst rp)) = true /\ Forall parts_ok (snd rp)) (we_persons e).
 Definition xml_ok (d : wdb) : Prop := Forall xml_ok_entry (wd_entries d).
 
 Lemma xml_person_read_leaf f role p a :
@@ -293,11 +293,11 @@ Definition xml_step :=
   fun (acc : res (list (str * str) * list (str * list person))) (field : xml) =>
     do a <- acc;
     let name := x_tag field in
-    if is_role_lower name then do ps <- xml_person_read (S (xml_size field)) name field (snd a); Ok (fst a, ps)
+    if is_role_lower (lower name) then do ps <- xml_person_read (S (xml_size field)) name field (snd a); Ok (fst a, ps)
     else Ok (ci_set name (match x_text field with Some t => t | None => [] end) (fst a), snd a).
 
 Lemma xml_fold_fields : forall F af ap,
-  Forall (fun kv => is_role_lower (fst kv) = false) F -> NoDup (lkeys af ++ lkeys F) ->
+  Forall (fun kv => is_role_lower (lower (fst kv)) = false) F -> NoDup (lkeys af ++ lkeys F) ->
   fold_left xml_step (map (fun kv => leaf (fst kv) (snd kv)) F) (Ok (af, ap)) = Ok (af ++ F, ap).
 Proof.
   induction F as [|[k v] F IH]; intros af ap HF Hn; cbn [map fold_left]; [now rewrite app_nil_r|].
@@ -314,7 +314,7 @@ Definition xml_roles (R : list (str * list person)) : list xml :=
   flat_map (fun rp => match snd rp with [] => [] | ps => [container (fst rp) None 3 (map xml_person ps)] end) R.
 
 Lemma xml_fold_roles : forall R af ap,
-  Forall (fun rp => is_role_lower (fst rp) = true /\ Forall parts_ok (snd rp)) R ->
+  Forall (fun rp => is_role_lower (lower (fst rp)) = true /\ Forall parts_ok (snd rp)) R ->
   Forall (fun rp => snd rp <> []) R ->
   NoDup (lkeys ap ++ lkeys R) ->
   fold_left xml_step (xml_roles R) (Ok (af, ap)) = Ok (af, ap ++ R).
